@@ -22,7 +22,7 @@ var keyProps = map[string][]string{
 	"replica-":                         {"C01"},
 	"walk-wrong-tip":                   {"C01"},
 	"state-tip-unknown":                {"C01"},
-	"reopen-failed":                    {"C01", "C05"},
+	"reopen-failed":                    {"C01", "C05", "C12"},
 	"panic":                            {"C01", "C02", "C03", "C04", "C05", "C06", "C12", "C17", "C18"},
 	"conservation":                     {"C02", "C12"},
 	"admitted-":                        {"C03", "C12"},
@@ -38,6 +38,7 @@ var keyProps = map[string][]string{
 	"after-failed-op:":                 {"C05"},
 	"fault-ignored":                    {"C05"},
 	"running-differs-from-reopened":    {"C05"},
+	"pending-record-differs":           {"C12", "C05"},
 	"copy-open-failed":                 {"C05"},
 	"irrev-":                           {"C17"},
 	"irreversible-block-undone":        {"C17"},
@@ -70,21 +71,21 @@ var profiles = map[string]*Profile{
 		W:         map[string]int{"xfer": 6, "ktx": 7, "mine": 4, "foreign": 4, "fork": 5, "walk": 4, "reopen": 1, "sync": 2, "xfer-bad": 1, "xfer-hold": 1, "submit-held": 1, "badblock": 2, "fault": 2, "mine-auto-stale": 2},
 		EndChecks: []string{"sync", "obs", "replica", "walk 0", "replica", "sync", "replica"}},
 	"C02": {Name: "amounts", Steps: 30, Fee: []bool{true}, Windows: []int64{0},
-		W:         map[string]int{"xfer": 10, "xfer-bad": 4, "mine": 4, "foreign": 3, "fork": 3, "walk": 3, "sync": 2, "resubmit": 1, "xfer-hold": 3, "submit-held": 3, "mine-auto": 2, "balrace": 3, "badblock": 3, "fault": 2, "reopen": 2},
+		W:         map[string]int{"xfer": 10, "xfer-bad": 4, "mine": 4, "foreign": 3, "fork": 3, "walk": 3, "sync": 2, "resubmit": 1, "xfer-hold": 3, "submit-held": 3, "mine-auto": 2, "balrace": 3, "badblock": 3, "fault": 2, "reopen": 2, "race3": 3, "flood": 1},
 		EndChecks: []string{"sync", "obs"}},
 	"C03": {Name: "conflicts", Steps: 36, Fee: []bool{false, true}, Windows: []int64{0},
 		W: map[string]int{"xfer": 5, "xfer-bad": 4, "resubmit": 3, "ktx": 5, "ktx-two": 5, "ktx-old": 3, "mine": 3, "foreign": 5, "fork": 3,
-			"walk": 2, "sync": 2, "badblock": 2, "xfer-hold": 2, "submit-held": 2, "race": 4},
+			"walk": 2, "sync": 2, "badblock": 2, "xfer-hold": 2, "submit-held": 2, "race": 4, "race3": 3},
 		EndChecks: []string{"sync", "obs"}},
 	"C05": {Name: "failures", Steps: 30, Fee: []bool{false, true}, Windows: []int64{0, 2},
 		W: map[string]int{"xfer": 4, "xfer-bad": 5, "ktx": 4, "ktx-old": 3, "resubmit": 2, "badblock": 5, "mine": 3, "foreign": 3, "fork": 3,
-			"walk": 2, "cmpcopy": 4, "reopen": 2, "badswitch": 2, "sync": 2, "fault": 5, "mine-auto": 3, "xfer-hold": 1, "submit-held": 1, "balrace": 3},
+			"walk": 2, "cmpcopy": 4, "reopen": 2, "badswitch": 2, "sync": 2, "fault": 5, "mine-auto": 3, "xfer-hold": 1, "submit-held": 1, "balrace": 3, "race3": 3, "flood": 2},
 		EndChecks: []string{"cmpcopy", "sync", "cmpcopy"}},
 	"C06": {Name: "crash", Steps: 26, Fee: []bool{false, true}, Windows: []int64{0},
-		W:         map[string]int{"xfer": 6, "ktx": 6, "mine": 5, "foreign": 5, "fork": 5, "walk": 3, "sync": 3, "xfer-bad": 1, "truncate": 2, "badblock": 1, "bad-truncate": 2},
+		W:         map[string]int{"xfer": 6, "ktx": 6, "mine": 5, "foreign": 5, "fork": 5, "walk": 3, "sync": 3, "xfer-bad": 1, "truncate": 2, "badblock": 1, "bad-truncate": 2, "fault": 3},
 		EndChecks: []string{"crashcheck 120"}},
 	"C12": {Name: "schedules", Steps: 30, Fee: []bool{false, true}, Windows: []int64{0},
-		W:         map[string]int{"xfer": 4, "ktx": 4, "race": 10, "balrace": 6, "selrace": 4, "walkrace": 4, "xfer-bad": 3, "ktx-two": 3, "ktx-old": 2, "mine": 3, "foreign": 3, "fork": 2, "walk": 2, "sync": 2},
+		W:         map[string]int{"xfer": 4, "ktx": 4, "race": 10, "race3": 5, "flood": 5, "balrace": 6, "selrace": 4, "walkrace": 4, "xfer-bad": 3, "ktx-two": 3, "ktx-old": 2, "mine": 3, "foreign": 3, "fork": 2, "walk": 2, "sync": 2},
 		EndChecks: []string{"sync", "obs"}},
 	"C17": {Name: "finality", Steps: 34, Fee: []bool{false}, Windows: []int64{1, 2, 3, 0},
 		W:         map[string]int{"xfer": 2, "ktx": 2, "mine": 6, "foreign": 5, "fork": 7, "walk": 6, "sync": 3, "reopen": 2, "badblock": 2, "truncate": 2, "walkrace": 4},
